@@ -34,7 +34,8 @@ open MetadorModel.Chain
 
 abbrev Bytes := List Char
 
-def MAGIC : List Char := "ih5_v01".toList
+def MAGIC : List Char :=  -- "ih5_v01"
+  ['i', 'h', '5', '_', 'v', '0', '1']
 def UBSIZE : Nat := 1024
 
 inductive Err
@@ -147,8 +148,8 @@ def hexRun : Nat → List Char → Option (List Char)
   | _ + 1, [] => none
 
 def dash : List Char → Option (List Char)
-  | '-' :: s => some s
-  | _ => none
+  | [] => none
+  | c :: s => if c = '-' then some s else none
 
 /-- canonical uuid text `8-4-4-4-12`, lower case (what `str(UUID)` / `json()` emit) -/
 def isUuid (s : List Char) : Bool :=
@@ -159,17 +160,48 @@ def isUuid (s : List Char) : Bool :=
 
 /-- canonical decimal of a non-negative int -/
 def isDec : List Char → Bool
-  | ['0'] => true
-  | c :: cs => '1' ≤ c && c ≤ '9' && cs.all isDigit
   | [] => false
+  | c :: cs => if c = '0' then cs.isEmpty else ('1' ≤ c && c ≤ '9' && cs.all isDigit)
+
+/-! literal pieces of the canonical text (named, so that proofs can treat them as opaque) -/
+def S_null : List Char :=  -- "null"
+  ['n', 'u', 'l', 'l']
+def S_true : List Char :=  -- "true"
+  ['t', 'r', 'u', 'e']
+def S_false : List Char :=  -- "false"
+  ['f', 'a', 'l', 's', 'e']
+def S_obj0 : List Char :=  -- "{}"
+  ['{', '}']
+def S_sha256 : List Char :=  -- "sha256:"
+  ['s', 'h', 'a', '2', '5', '6', ':']
+def S_sha512 : List Char :=  -- "sha512:"
+  ['s', 'h', 'a', '5', '1', '2', ':']
+def E1 : List Char :=  -- "{\"ih5mf_v01\": {\"is_stub_container\": "
+  ['{', '"', 'i', 'h', '5', 'm', 'f', '_', 'v', '0', '1', '"', ':', ' ', '{', '"', 'i', 's', '_', 's', 't', 'u', 'b', '_', 'c', 'o', 'n', 't', 'a', 'i', 'n', 'e', 'r', '"', ':', ' ']
+def E2 : List Char :=  -- ", \"manifest_uuid\": "
+  [',', ' ', '"', 'm', 'a', 'n', 'i', 'f', 'e', 's', 't', '_', 'u', 'u', 'i', 'd', '"', ':', ' ']
+def E3 : List Char :=  -- ", \"manifest_hashsum\": "
+  [',', ' ', '"', 'm', 'a', 'n', 'i', 'f', 'e', 's', 't', '_', 'h', 'a', 's', 'h', 's', 'u', 'm', '"', ':', ' ']
+def E4 : List Char :=  -- "}}"
+  ['}', '}']
+def S_close : List Char := ['}']
 
 def hexOk (s : List Char) : Bool := !s.isEmpty && s.all isHex
 
+/-- strip a literal prefix -/
+def lit : List Char → List Char → Option (List Char)
+  | [], s => some s
+  | _ :: _, [] => none
+  | p :: ps, c :: s => if p = c then lit ps s else none
+
 /-- `QualHashsumStr`: `(?:sha256|sha512):[0-9a-fA-F]+` (full match) -/
-def isQHash : List Char → Bool
-  | 's' :: 'h' :: 'a' :: '2' :: '5' :: '6' :: ':' :: h => hexOk h
-  | 's' :: 'h' :: 'a' :: '5' :: '1' :: '2' :: ':' :: h => hexOk h
-  | _ => false
+def isQHash (s : List Char) : Bool :=
+  match lit S_sha256 s with
+  | some h => hexOk h
+  | none =>
+    match lit S_sha512 s with
+    | some h => hexOk h
+    | none => false
 
 def decVal (s : List Char) : Nat := s.foldl (fun acc c => acc * 10 + (c.toNat - 48)) 0
 
@@ -178,28 +210,31 @@ def decVal (s : List Char) : Nat := s.foldl (fun acc c => acc * 10 + (c.toNat - 
 def q (s : List Char) : List Char := '"' :: s ++ ['"']
 
 def optStr : Option (List Char) → List Char
-  | none => "null".toList
+  | none => S_null
   | some s => q s
 
-def renderBool (b : Bool) : List Char := if b then "true".toList else "false".toList
+def renderBool (b : Bool) : List Char := if b then S_true else S_false
 
 def renderExt : Option ExtT → List Char
-  | none => "{}".toList
-  | some e =>
-    "{\"ih5mf_v01\": {\"is_stub_container\": ".toList ++ renderBool e.isStub ++
-    ", \"manifest_uuid\": ".toList ++ q e.muuid ++
-    ", \"manifest_hashsum\": ".toList ++ q e.mhash ++ "}}".toList
+  | none => S_obj0
+  | some e => E1 ++ renderBool e.isStub ++ E2 ++ q e.muuid ++ E3 ++ q e.mhash ++ E4
 
-def K1 : List Char := "{\"record_uuid\": ".toList
-def K2 : List Char := ", \"patch_index\": ".toList
-def K3 : List Char := ", \"patch_uuid\": ".toList
-def K4 : List Char := ", \"prev_patch\": ".toList
-def K5 : List Char := ", \"hdf5_hashsum\": ".toList
-def K6 : List Char := ", \"ub_exts\": ".toList
+def K1 : List Char :=  -- "{\"record_uuid\": "
+  ['{', '"', 'r', 'e', 'c', 'o', 'r', 'd', '_', 'u', 'u', 'i', 'd', '"', ':', ' ']
+def K2 : List Char :=  -- ", \"patch_index\": "
+  [',', ' ', '"', 'p', 'a', 't', 'c', 'h', '_', 'i', 'n', 'd', 'e', 'x', '"', ':', ' ']
+def K3 : List Char :=  -- ", \"patch_uuid\": "
+  [',', ' ', '"', 'p', 'a', 't', 'c', 'h', '_', 'u', 'u', 'i', 'd', '"', ':', ' ']
+def K4 : List Char :=  -- ", \"prev_patch\": "
+  [',', ' ', '"', 'p', 'r', 'e', 'v', '_', 'p', 'a', 't', 'c', 'h', '"', ':', ' ']
+def K5 : List Char :=  -- ", \"hdf5_hashsum\": "
+  [',', ' ', '"', 'h', 'd', 'f', '5', '_', 'h', 'a', 's', 'h', 's', 'u', 'm', '"', ':', ' ']
+def K6 : List Char :=  -- ", \"ub_exts\": "
+  [',', ' ', '"', 'u', 'b', '_', 'e', 'x', 't', 's', '"', ':', ' ']
 
 def render (u : UBT) : List Char :=
   K1 ++ q u.rid ++ K2 ++ u.idx ++ K3 ++ q u.pid ++ K4 ++ optStr u.prev ++
-  K5 ++ optStr u.hash ++ K6 ++ renderExt u.ext ++ ['}']
+  K5 ++ optStr u.hash ++ K6 ++ renderExt u.ext ++ S_close
 
 /-- well-formed field texts (what pydantic guarantees for a block it serialises) -/
 def ExtT.wf (e : ExtT) : Bool := isUuid e.muuid && isQHash e.mhash
@@ -212,12 +247,6 @@ def UBT.wf (u : UBT) : Bool :=
 
 /-! ### Parsing (`json.loads` + `parse_obj`, canonical texts only) -/
 
-/-- strip a literal prefix -/
-def lit : List Char → List Char → Option (List Char)
-  | [], s => some s
-  | _ :: _, [] => none
-  | p :: ps, c :: s => if p = c then lit ps s else none
-
 /-- characters up to (not including) the next `"`, and the rest after that quote -/
 def untilQuote : List Char → Option (List Char × List Char)
   | [] => none
@@ -225,15 +254,17 @@ def untilQuote : List Char → Option (List Char × List Char)
 
 /-- a JSON string `"…"` whose content satisfies `ok` (content without quote / escape) -/
 def strP (ok : List Char → Bool) : List Char → Option (List Char × List Char)
-  | '"' :: s =>
-    match untilQuote s with
-    | some (a, r) => if ok a then some (a, r) else none
-    | none => none
-  | _ => none
+  | [] => none
+  | c :: s =>
+    if c = '"' then
+      match untilQuote s with
+      | some (a, r) => if ok a then some (a, r) else none
+      | none => none
+    else none
 
 /-- `null` or a string -/
 def optP (ok : List Char → Bool) (s : List Char) : Option (Option (List Char) × List Char) :=
-  match lit "null".toList s with
+  match lit S_null s with
   | some r => some (none, r)
   | none => (strP ok s).map (fun (a, r) => (some a, r))
 
@@ -247,21 +278,21 @@ def decP (s : List Char) : Option (List Char × List Char) :=
   if isDec a then some (a, r) else none
 
 def boolP (s : List Char) : Option (Bool × List Char) :=
-  match lit "true".toList s with
+  match lit S_true s with
   | some r => some (true, r)
-  | none => (lit "false".toList s).map (fun r => (false, r))
+  | none => (lit S_false s).map (fun r => (false, r))
 
 def extP (s : List Char) : Option (Option ExtT × List Char) :=
-  match lit "{}".toList s with
+  match lit S_obj0 s with
   | some r => some (none, r)
   | none => do
-    let s ← lit "{\"ih5mf_v01\": {\"is_stub_container\": ".toList s
+    let s ← lit E1 s
     let (b, s) ← boolP s
-    let s ← lit ", \"manifest_uuid\": ".toList s
+    let s ← lit E2 s
     let (mu, s) ← strP isUuid s
-    let s ← lit ", \"manifest_hashsum\": ".toList s
+    let s ← lit E3 s
     let (mh, s) ← strP isQHash s
-    let s ← lit "}}".toList s
+    let s ← lit E4 s
     pure (some ⟨b, mu, mh⟩, s)
 
 /-- parser with remainder -/
@@ -278,7 +309,7 @@ def parseP (s : List Char) : Option (UBT × List Char) := do
   let (hash, s) ← optP isQHash s
   let s ← lit K6 s
   let (ext, s) ← extP s
-  let s ← lit ['}'] s
+  let s ← lit S_close s
   pure (⟨rid, idx, pid, prev, hash, ext⟩, s)
 
 def parseUBT (s : List Char) : Except Err UBT :=
@@ -302,7 +333,8 @@ def loadUB (file : Bytes) : Except Err UB := (loadUBT file).map UBT.toUB
 /-! ## Writing: `save` -/
 
 /-- decimal text of `_userblock_size` for blocks made by `create` -/
-def SZ1024 : List Char := "1024".toList
+def SZ1024 : List Char :=  -- "1024"
+  ['1', '0', '2', '4']
 
 /-- the bytes `save` writes at offset 0: `magic \n size \n json` and one NUL
 (`size` = `str(self._userblock_size)`) -/
